@@ -5,6 +5,7 @@ import collections
 import z3
 
 from pyvc.run import harness, canary
+from .common import UniverseStub as _U0
 from pyvc import heap
 from pyvc.core import (SymNum, SymBool, SymKey, SymTime, ctx, lift, liftk, R, K, B, EQ, NE, LE, LT, GE, GT, AND, OR, NOT, IMPLIES, IFF)
 
@@ -82,7 +83,8 @@ def dh_latest(c):
     dt = c.time('dt')
     for n in (0, 1, 2, 3):
         log = []
-        dh = BacktestDataHandler(None, data_sources=[_Source(c, i, log) for i in range(n)])
+        # (the handler's universe is arbitrary: prices do not depend on whether it lists the asset at dt)
+        dh = BacktestDataHandler(_U0(c), data_sources=[_Source(c, i, log) for i in range(n)])
         bid = dh.get_asset_latest_bid_price(dt, a)
         want = _first_valid(c, n, SRC_BID, SRC_NAN, dt, a)
         tag = '%d-sources/' % n
@@ -116,7 +118,7 @@ def dh_stateless(c):
     dt, t0 = c.time('dt'), c.time('time_of_an_earlier_query')
     n = 2 if c.mode == 'sym' else int(c.real('number_of_sources', lambda r: float(r.choice([1, 2, 3]))))
     log = []
-    dh = BacktestDataHandler(None, data_sources=[_Source(c, i, log) for i in range(n)])
+    dh = BacktestDataHandler(_U0(c), data_sources=[_Source(c, i, log) for i in range(n)])
     if c.mode == 'sym':
         for i in range(n):         # (the earlier query's sources do not raise: fewer paths; raising sources are the main harness)
             c.assume(z3.Not(SRC_RAISES(z3.IntVal(i), lift(t0), liftk(a0))))
